@@ -419,6 +419,31 @@ fn random_material<X: Sx>(ctx: &Ctx, idx: u64, n: usize) {
             draw_scalars(ctx, &g.draws, &o);
         }
     }
+    // volume: events of probability ~1e-4 per draw (bounded retry loops that fall back to a default, short outputs)
+    {
+        let total = ctx.t(25_000usize, 250_000usize);
+        let mut seen: std::collections::HashSet<[u8; 32]> = std::collections::HashSet::with_capacity(total);
+        let (mut zeros, mut repeats) = (0u64, 0u64);
+        let m = ctx.call("BlindFactor::random x N", &origin, None, || {
+            for _ in 0..total {
+                let b = BlindFactor::random().to_bytes();
+                if b == [0u8; 32] {
+                    zeros += 1;
+                }
+                if !seen.insert(b) {
+                    repeats += 1;
+                }
+            }
+            Ok::<_, ()>(())
+        });
+        if !m.outcome.is_ok() {
+            ctx.violation("C07:BlindFactor::random-failed", json!({"outcome":m.outcome.short()}));
+        }
+        if zeros > 0 || repeats > 0 {
+            ctx.violation("C07:blind-factor-zero-or-repeated-in-volume", json!({"draws":total,"zeros":zeros,"repeats":repeats}));
+        }
+        ctx.count("blind_factors_in_volume", total as u64);
+    }
 }
 
 pub fn scenarios(ctx: &Ctx) -> Vec<Scenario> {
